@@ -273,6 +273,10 @@ func c30one(r *vh.Run, sh c30shape, peers []c30peer) {
 		id[i] = i
 	}
 	shape := fmt.Sprintf("n=%d,K=%d,L=%d", sh.n, sh.K, sh.L)
+	// the size of the position table is decided by the code under test: a death of the process while one of the
+	// input orders of this peer set is inside GenesisChainConfig is attributed to the peer set
+	r.Guard("GenesisChainConfig:"+shape, fmt.Sprintf("%s: GenesisChainConfig on some input order of peers %v", shape, peers), c30case{K: sh.K, L: sh.L, C: sh.C, Peers: peers})
+	defer r.Unguard()
 	ref, msg := c30run(conf, peers, id)
 	r.Eval(1)
 	if ref == nil {
@@ -325,6 +329,7 @@ func c30stakes(ps []c30peer) []uint64 {
 func TestVerif_C30(t *testing.T) {
 	r := vh.Start(t, "C30", "genesis")
 	defer r.Finish()
+	vh.LimitMemory(4 << 30)
 	r.Rule("real GenesisChainConfig on peer sets of n in {4,5,7,8} distinct keys, stakes = every multiset over the alphabet placed on the keys in 3 arrangements (ties fall on different key pairs), valid (K,L,C) incl. K<n (a cut) and the governance shape K=7,L=112; for each peer set every input order (all n! for n<=7; for n=8 rotations, reversals, transpositions and, thorough, 2*7! orders) must give the identical (Peers, PosTable); the result must hold exactly K input peers with no left-out peer staked higher than a chosen one, >=1 slot each, slot counts monotone in stake. classes = (shape, cut strict/tied/none, ties inside the top K, zero stakes)")
 	r.Assume("distinct keys and indexes; sum of stakes < 2^64 (alphabet maximum 2^60 instead of DESIGN's 2^63: two such stakes wrap the uint64 sum, which no ONT supply can produce); K<=n, C>=1, K>=2C+1, L%K==0, L>=2K")
 	big := []uint64{0, 1, 2, 10000, 10001, 1 << 60}
